@@ -511,7 +511,7 @@ pub fn prop() -> Prop<Case> {
     Prop {
         id: "C14",
         level: "exploration",
-        rule: "four case kinds. Twice: (options1, options2, tree) backed up twice untouched: the logged storage trace of run 2 has no write under d/, written_blocks==0, independently decoded addresses per path identical; non-trivial = tree has a combined block and a multi-block file. TwiceAfterReadError (a tenth as many): the same relation when, during the first backup, a later file of the directory being read was replaced by a directory so that reading it failed. Hist: history as C02 with every storage operation logged with the pre-state of its path: no write to a d/ path that exists with non-zero length; non-trivial = >=2 backups with deduplication. Resume: scenario (prefix<=3 ops, edits, options) x every crash point of the backup's trace (before each mutating op + torn variant for writes; quick tier thins to <=60 per scenario), then a resumed backup of the unchanged source: block paths successfully written by run 1 are not written by run 2, every entry the interrupted band recorded keeps its addresses in the resumed band, and every file unchanged (size, mtime) with respect to the stitched basis at the moment of the crash is recorded with the basis entry's addresses; non-trivial = crash point after >=1 block write (counted per (scenario, crash point), distinct by construction). Fixed scale probes per run: the twice-relation on files stored as single blocks of several MiB (two of them identical) and on a version whose single index hunk exceeds 32 MiB, and the resume relation at 20 crash points of a backup over a basis band of 200 two-entry hunks with one file added at the front, and the resume relation at 8 crash points when the interrupted band sits 12 000 ids above its basis",
+        rule: "four case kinds. Twice: (options1, options2, tree) backed up twice untouched: the logged storage trace of run 2 has no write under d/, written_blocks==0, independently decoded addresses per path identical; non-trivial = tree has a combined block and a multi-block file. TwiceAfterReadError (a tenth as many): the same relation when, during the first backup, a later file of the directory being read was replaced by a directory so that reading it failed. Hist: history as C02 with every storage operation logged with the pre-state of its path: no write to a d/ path that exists with non-zero length; non-trivial = >=2 backups with deduplication. Resume: scenario (prefix<=3 ops, edits, options) x every crash point of the backup's trace (before each mutating op + torn variant for writes; quick tier thins to <=60 per scenario), then a resumed backup of the unchanged source: block paths successfully written by run 1 are not written by run 2, every entry the interrupted band recorded keeps its addresses in the resumed band, and every file unchanged (size, mtime) with respect to the stitched basis at the moment of the crash is recorded with the basis entry's addresses; non-trivial = crash point after >=1 block write (counted per (scenario, crash point), distinct by construction). Fixed scale probes per run: the twice-relation on files stored as single blocks of several MiB (two of them identical) and on a version whose single index hunk exceeds 32 MiB, and the resume relation at 20 crash points of a backup over a basis band of 200 two-entry hunks with one file added at the front, and the resume relation at 8 crash points when the interrupted band sits 12 000 ids above its basis; since round 7 a probe with two opened values of one archive: one holds its block directory while the tree is stored through the other, then the unchanged tree is backed up through the first",
         assumptions: &[
             "zero-length leftovers of a killed write may be completed (the documented exception)",
             "crash granularity = one transport operation",
